@@ -5,7 +5,7 @@ Statement outcomes: ("normal",) ("return", V) ("raise", Raise) ("break",) ("cont
 import ast
 import z3
 
-from .base import V, Unsupported, fresh, vref, vint, vbool, VNONE, NONE, I, B, SeqI, ISINST, field_sort
+from .base import Marker, V, Unsupported, fresh, vref, vint, vbool, VNONE, NONE, I, B, SeqI, ISINST, field_sort
 from .symex import Raise, dotted
 
 NORMAL = ("normal",)
@@ -259,7 +259,18 @@ class StmtMixin:
             return [(s, NORMAL if o[0] == "break" else o) for s, o in branches]
         if lspec is None:
             raise Unsupported("loop over %s has no invariant in the sidecar spec (key %r)" % (ast.unparse(stmt.iter), key))
-        seq, binder = lspec.source(self, st, it) if hasattr(lspec, "source") else (self.seq_of(st, it), None)
+        if hasattr(lspec, "source"):
+            seq, binder = lspec.source(self, st, it)
+        elif it.kind == "ref" and it.py == "dict_items":
+            seq = st.get("dord", it.t)
+            binder = lambda ex, s, i, d=it.t, q=seq: V("static", None, (V("ref", q[i], ex.registry.key_hint(it)), V("ref", z3.Select(s.get("dval", d), q[i]))))
+        elif it.kind == "ref" and it.py == "dict_keys":
+            seq, binder = st.get("dord", it.t), None
+        elif it.kind == "static" and isinstance(it.py, Marker) and it.py.name == "enumerate":
+            seq = self.seq_of(st, it.py.payload)
+            binder = lambda ex, s, i, q=seq, src=it.py.payload: V("static", None, (vint(i), V("ref", q[i], ex.registry.elem_hint(src))))
+        else:
+            seq, binder = self.seq_of(st, it), None
         entry = st.copy()
         name = "loop(%s)" % key
         # 1. invariant holds on entry
